@@ -149,6 +149,8 @@ def gen_cases(rnd, tier):
     for pos in (1, 2, 10, 11):
         cases.append(("recv", False, [8], pos))
     cases.append(("send", True, 500, ["ack", "nak"]))
+    for host, size, script in [(False, 10, [4]), (True, 10, [0]), (False, 300, ["ack", 5]), (True, 0, ["nak"]), (False, 244, ["ack"])]:
+        cases.append(("send", host, size, script))
     cases.append(("send", False, 500, ["ack", "ack", "ack"]))
     return cases
 
